@@ -71,9 +71,14 @@ def _case(draw, tier):
     nodes = draw(_level(0, counter, 14))
     K = 4 if tier == "quick" else 8
     k = draw(st.integers(1, K))
-    if prob(draw, 0.3):
+    has_map = any(n["k"] == "graph" and n.get("map") for n in nodes)
+    if prob(draw, 0.5 if has_map else 0.2):
         # a limit just above the number of function nodes written in the program (map fan-out may still exceed it)
         k = min(_leaves(nodes) + draw(st.integers(0, 1)), 8)
+        if has_map:
+            for n in nodes:
+                if n["k"] == "graph" and n.get("map"):
+                    n["fan"] = min(6, max(n.get("fan", 1), k + 1))
     pre = draw(st.sampled_from([None, None, None, "empty_map", "zip_error", "failing_map", "failing_map"]))
     return {"nodes": nodes, "k": k, "via_map": prob(draw, 0.3), "nitems": draw(st.integers(1, 6)),
             "sched": draw(st.lists(st.integers(0, 9), max_size=80)), "adversarial": prob(draw, 0.8),
